@@ -225,6 +225,16 @@ def _field_name(fn, e, assigned_from_local):
     return None
 
 
+def _on_stable_local(fn, cond, field, afl):
+    """the condition mentions `field` through a local that is initialised once and never written again, and stored in that field"""
+    from ..model import stable_locals
+    st = stable_locals(fn)
+    for x in walk(cond):
+        if x.get("k") == "DeclRefExpr" and (x.get("ref") or {}).get("dk") == "Var" and x["ref"].get("did") in st and afl.get(x["ref"]["did"]) == {field}:
+            return True
+    return False
+
+
 def _operand(fn, e, afl):
     f = _field_name(fn, e, afl)
     if f is not None:
@@ -391,7 +401,8 @@ def extract_table(prog, fn):
         fields = {f for (f, _, _, _) in row["assign"]}
         first_assign = min([fi.order[id(a)] for (_, _, _, a) in row["assign"]], default=None)
         for (l, op, rr, s_) in valids:
-            if l in fields and first_assign is not None and fi.order[id(s_)] > first_assign:
+            # the check is made on the field after it was filled, or on the constant local whose value is then stored in the field
+            if l in fields and first_assign is not None and (fi.order[id(s_)] > first_assign or _on_stable_local(fn, s_["cond"], l, afl)):
                 row["valid"].append((l, op, rr, True, s_))
         for (x, s_) in unknown_valid:
             names = {_field_name(fn, y, afl) for y in walk(x)}
